@@ -192,6 +192,52 @@ def case(spec, log):
                 del made[:]
                 w = None     # the harness must not keep workers alive through its own temporaries
                 quiescent_check('race step%d' % step)
+            elif name == 'restart_race':
+                # persistent workers are restarted by one thread while other threads sweep the registry
+                pers = [w for w in workers.values() if w.is_persistent and w._do_run]
+                if pers:
+                    old = sys.getswitchinterval()
+                    sys.setswitchinterval(1e-6)
+                    stop = threading.Event()
+                    errs = []
+
+                    def sweeper2():
+                        while not stop.is_set():
+                            try:
+                                list(Worker.active_children())
+                            except BaseException as e:  # noqa
+                                errs.append(repr(e)[:120])
+                                time.sleep(0.001)
+
+                    def restarter():
+                        for k in range(op[1]):
+                            try:
+                                pers[k % len(pers)].restart(timeout=10)
+                            except Exception as e:
+                                # restart() may give up on a worker it could not see dying, or trip over the sweepers' is_alive()
+                                # calls sharing the worker's control channel: worker objects are not promised to be thread-safe,
+                                # that is not the registry's business - the registry is judged below
+                                key = 'restart_failed_under_sweep_' + type(e).__name__
+                                stats[key] = stats.get(key, 0) + 1
+
+                    sw = [threading.Thread(target=sweeper2) for _ in range(2)]
+                    for t in sw:
+                        t.start()
+                    rt = threading.Thread(target=restarter)
+                    rt.start()
+                    rt.join()
+                    stop.set()
+                    for t in sw:
+                        t.join()
+                    sys.setswitchinterval(old)
+                    stats['restarts_under_sweep'] = stats.get('restarts_under_sweep', 0) + op[1]
+                    if errs:
+                        problems.append({'kind': 'restart-racing-with-sweep-raised', 'at': 'step%d' % step, 'example': errs[0], 'n': len(errs)})
+                    quiescent_check('restart_race step%d' % step)
+                # the harness must not keep workers alive through its own temporaries (closures included)
+                del pers[:]
+                pers = sw = rt = None
+                w = None
             elif name == 'autoclose':
                 with autoclose_active_children():
                     pass
@@ -248,6 +294,8 @@ def gen_history(r, size, heavy):
             ops.append(['concurrent', r.randint(1, 4)])
         elif x < 0.945:
             ops.append(['race', r.randint(3, 8)])
+        elif x < 0.97 and any(o[0] == 'create' and o[1].startswith('Persistent') and o[2] != 'norun' for o in ops):
+            ops.append(['restart_race', r.randint(3, 10)])
         else:
             ops.append(['finish'])
             ops.append(['drop'])
@@ -261,7 +309,7 @@ def run(tier):
     thorough = tier == 'thorough'
     chk = Check('C19', 'exploration', tier,
                 'seeded histories (up to ~300 operations) of worker creations (six classes; quick, looping, not-run), completions, terminations, restarts, interleaved with quiescent-point comparisons of '
-                'Worker.active_children() with the live created workers, weak-reference retention checks after dropping dead workers, concurrent active_children() calls from 1-4 threads, and autoclose blocks; '
+                'Worker.active_children() with the live created workers, weak-reference retention checks after dropping dead workers, concurrent active_children() calls from 1-4 threads, creations and restarts racing with registry sweeps under a 1 microsecond switch interval, and autoclose blocks; '
                 'distinct non-trivial = distinct histories')
     r = rng('c19')
     jobs = []
@@ -273,6 +321,11 @@ def run(tier):
     jobs.append(dict(ops=[['create', 'RemoteWorker', 'loop'], ['race', 20], ['check'], ['race', 20], ['check'], ['autoclose'], ['check']], heavy=True))
     jobs.append(dict(ops=[['create', 'ThreadWorker', 'quick'] for _ in range(300)] + [['finish'], ['check'], ['drop'], ['check']], heavy=False))
     jobs.append(dict(ops=sum([[['create', 'PersistentThreadWorker', 'quick'], ['finish'], ['restart', 0], ['check']] for _ in range(20)], []) + [['drop'], ['check']], heavy=False))
+    # restarts racing with registry sweeps, per persistent kind (alive workers and workers that have finished)
+    for cls in ('PersistentThreadWorker', 'PersistentProcessWorker', 'PersistentRemoteWorker'):
+        n = 40 if cls == 'PersistentThreadWorker' else 6
+        jobs.append(dict(ops=[['create', cls, 'loop'], ['create', cls, 'loop'], ['restart_race', n], ['check'], ['restart_race', n], ['check'], ['autoclose'], ['check']], heavy=cls != 'PersistentThreadWorker'))
+        jobs.append(dict(ops=[['create', cls, 'quick'], ['create', cls, 'loop'], ['finish'], ['check'], ['restart_race', n], ['check'], ['drop'], ['check'], ['autoclose'], ['check']], heavy=cls != 'PersistentThreadWorker'))
     wd = workdir('c19')
 
     def one(ij):
